@@ -151,6 +151,21 @@ func SetStdin(s string) {
 
 func StdinChunks() {}
 
+// TempFile creates a file holding content and returns its name (the engine keeps the content in a
+// model of the file system: os.Open of the name reads it back).
+func TempFile(content string) string {
+	f, err := os.CreateTemp("", "vrtfile")
+	if err != nil {
+		panic(err)
+	}
+	f.WriteString(content)
+	f.Close()
+	tempFiles = append(tempFiles, f.Name())
+	return f.Name()
+}
+
+var tempFiles []string
+
 var capFile, capSaved *os.File
 
 // CaptureStart redirects what the program prints (os.Stdout) into a buffer.
